@@ -1,10 +1,10 @@
 SPECIFICATION Spec
 CONSTANTS
-  Part = "builder"
+  Parts = {"builder", "wallet"}
   Seeds = {"s1"}
   Comps = {"c0", "c1"}
   HardComps = {}
-  Amts = {"a0"}
+  Amts = {"a1", "amax"}
   MaxDepth = 4
   VKMaxDepth = 0
   MaxOuts = 1
@@ -22,7 +22,7 @@ CONSTANTS
   CbFeeClasses = {"cf0", "cf1", "cftyp", "cfmax40", "cfmax64"}
   AlgStride = 1
   CbStride = 5
-  ShapeStride = 97
+  ShapeStride = 113
   PairStride = 1
   WalPicks = 1
-INVARIANTS TypeOK BuilderBalances ExchangeOK CoinbaseOK EmitShape
+INVARIANTS TypeOK BuilderBalances ExchangeOK CoinbaseOK WalletsOK EmitShape EmitWal
